@@ -152,7 +152,10 @@ def run(tier, seed):
         paths[(d["logdet_path"], obs)] = paths.get((d["logdet_path"], obs), 0) + 1
         for label, msg in fails:
             kind = core.failure_kind(dict(kind="raised" if msg.startswith("raised") else "value", msg=msg))
-            sig = "%s|%s|%s|%s|%s" % (PROP, label.replace(" ", ""), d["cls"], d["logdet_path"], kind)
+            cls_tag = d["cls"]
+            if d["cfg"]["max_chol"] == 0 and d["cls"].startswith("Kron") and e2.degenerate_factor(beh):
+                cls_tag += "[factor-with-repeated-eigenvalue]"
+            sig = "%s|%s|%s|%s|%s" % (PROP, label.replace(" ", ""), cls_tag, d["logdet_path"], kind)
             res.violation(sig, "%s batch=%s dt=%s cfg=%s: %s: %s" % (beh["path"], d["b"], d["dt"], d["cfg"], label, msg), dict(behaviour=beh))
     res.notes["paths_predicted_x_observed"] = {"%s / %s" % k: v for k, v in sorted(paths.items())}
     res.samples = [dict(desc=b["desc"], path=b["path"], dets=b.get("dets")) for b in behs[:3]]
